@@ -27,19 +27,49 @@ theorem c17_footprints_clean : clean Gen.footprints = true := by decide +kernel
 /-- every mechanism type has a row for every method the pipeline calls -/
 theorem c17_footprints_complete : complete Gen.footprints = true := by decide +kernel
 
-/-- the mechanism types of the source and their fields are exactly those of the model (a new type, or a new field
-— for instance one that caches something — breaks this obligation) -/
+/-- the mechanism types of the source and their fields are those of the model, as sets (a new type, or a new field
+— for instance one that caches something — breaks this obligation; a reordering does not) -/
+def coverOk (gen model : List (String × String × List String)) : Bool :=
+  (model.all fun m => gen.any fun g => g.1 == m.1 && g.2.1 == m.2.1 && sameSet g.2.2 m.2.2) &&
+  (gen.all fun g => model.any fun m => g.2.1 == m.2.1)
+
 theorem c17_footprints_cover_model :
-    ((Footprint.types Gen.footprints).filter fun x => x.1 != "factory") =
-      Mech.types.map fun t => (t.kind, t.go, t.fields) := by decide +kernel
+    coverOk ((Footprint.types Gen.footprints).filter fun x => x.1 != "factory" && x.1 != "reload")
+      (Mech.types.map fun t => (t.kind, t.go, t.fields)) = true := by decide +kernel
+
+/-- … down to the leaves: every leaf field of every mechanism struct (fields of embedded by-value structs
+followed), with its being a reference or a plain value, is a slot of the model with the same classification, and
+vice versa -/
+def leavesOk (gen : List (String × List (String × Bool))) (model : List TypeD) : Bool :=
+  model.all fun t => gen.any fun g => g.1 == t.go &&
+    (g.2.all fun l => t.slots.any fun s => s.name == l.1 && s.ref == l.2) &&
+    (t.slots.all fun s => g.2.any fun l => s.name == l.1 && s.ref == l.2)
+
+theorem c17_struct_leaves_match_model : leavesOk Gen.structLeaves Mech.types = true := by decide +kernel
+
+/-- the only writers of loaded state that are meant to exist — the reload callbacks of the key material
+(`jwtSigner.OnChanged`, `HTTPMessageSignatures.OnChanged`) — write under the write lock, and the jwt finalizer reads
+its signer under the read lock (what a reload does to the tokens issued is C16's subject) -/
+theorem c17_reloadable_state_is_lock_guarded : reloadGuarded Gen.footprints = true := by decide +kernel
+
+/-- the table `heimdall` looks rules up in is consistent: every slot of every type is found under its Go type and
+name -/
+theorem c17_table_consistent : tableConsistent = true := by decide +kernel
+
+/-- hence `heimdall` does with a slot exactly what the slot's rule says -/
+theorem c17_heimdall_replace_table (t : TypeD) (ht : t ∈ Mech.types) (s : SlotD) (hs : s ∈ t.slots)
+    (old : Entries) (ov : Override) :
+    heimdall.replace t.go s.name old ov = applyRule s.rule old ov ∧ heimdall.byValue t.go s.name = !s.ref :=
+  heimdall_replace_of_consistent c17_table_consistent t ht s hs old ov
 
 /-- a clean row gives a thread program without in-place writes, however fields are split into slots -/
 theorem c17_clean_program_read_only (t : List Row) (hc : clean t = true) (r : Row) (hr : r ∈ t)
-    (slotsOf : String → List String) (s : String) : Op.wr s ∉ r.program slotsOf := by
+    (hk : r.kind ≠ "reload") (slotsOf : String → List String) (s : String) : Op.wr s ∉ r.program slotsOf := by
   have hrow : r.clean = true := List.all_eq_true.mp hc r hr
-  simp only [Row.clean, Bool.and_eq_true, List.isEmpty_iff] at hrow
+  have hk' : (r.kind == "reload") = false := by simpa using hk
+  simp only [Row.clean, hk', Bool.false_or, Bool.and_eq_true, List.isEmpty_iff] at hrow
   intro hm
-  simp only [Row.program, hrow.1.1.1, List.flatMap_nil, List.append_nil, List.mem_flatMap, List.mem_map] at hm
+  simp only [Row.program, hrow.1.1.1.1, List.flatMap_nil, List.append_nil, List.mem_flatMap, List.mem_map] at hm
   rcases hm with ⟨_, _, _, _, h⟩
   cases h
 
@@ -47,9 +77,9 @@ example : ∃ r ∈ Gen.footprints, r.typ = "jwtAuthenticator" ∧ r.method = "E
   decide +kernel
 
 /-- the programs of the current source are read-only -/
-theorem c17_current_programs_read_only (r : Row) (hr : r ∈ Gen.footprints) (slotsOf : String → List String)
-    (s : String) : Op.wr s ∉ r.program slotsOf :=
-  c17_clean_program_read_only Gen.footprints c17_footprints_clean r hr slotsOf s
+theorem c17_current_programs_read_only (r : Row) (hr : r ∈ Gen.footprints) (hk : r.kind ≠ "reload")
+    (slotsOf : String → List String) (s : String) : Op.wr s ∉ r.program slotsOf :=
+  c17_clean_program_read_only Gen.footprints c17_footprints_clean r hr hk slotsOf s
 
 /-! ## Immutability and race freedom, for every run -/
 
@@ -227,45 +257,65 @@ theorem c17_in_place_write_breaks_it :
     by_cases h : i = 0
     · simp [lazy₀, h]
     · simp [lazy₀, h]
-  · exact ⟨by decide, "r", [], ⟨"jwt", [("r", 0)]⟩, 0, rfl, rfl, rfl, .rd "r", [], ⟨"jwt", [("r", 0)]⟩, rfl, rfl, rfl⟩
+  · exact ⟨by decide, "r", [], ⟨"jwt", [("r", 0)]⟩, 0, rfl, rfl, rfl, rfl⟩
   · refine ⟨_, Reach.single (Step.wr lazy₀ 0 "r" [] ⟨"jwt", [("r", 0)]⟩ 0 1 rfl rfl rfl), ?_⟩
     decide
 
-/-! ## The heimdall instance: what a rule-level `config` does, field by field -/
+/-! ## The heimdall instance: what a rule-level `config` does, field by field
 
-/-- a field that can be overridden shows the rule's own setting if the rule sets it, the catalogue's otherwise -/
-theorem c17_overridable_field_shows_own_setting_or_catalogue (key : Key) (zeroOk : Bool) (cat : Entries)
-    (ov : Override) : (applyRule (.over key zeroOk) cat ov).getD cat = observed key zeroOk cat ov := by
+The specification (`Spec/Overlay.lean: observed`, `MechTypes.lean: specRule`): the rule's own setting **always**
+wins.  The code tells "set" from "not set" by a nil pointer for some fields and by the zero value for the others;
+for the latter a rule cannot set the zero value (known finding `C17-zero-override`): the theorems below are
+stated where the setting is `Expressible`, the witness shows the failure outside. -/
+
+/-- a field that can be overridden shows the rule's own setting if the rule has one, the catalogue's otherwise —
+provided the code can tell the setting from "not set" -/
+theorem c17_overridable_field_shows_own_setting_partial (key : Key) (zeroOk : Bool) (cat : Entries)
+    (ov : Override) (hx : sets ov key → Expressible ov key zeroOk) :
+    (applyRule (.over key zeroOk) cat ov).getD cat = observed key cat ov := by
   have hany : ((entriesOf ov.entries [key]).any (fun e => !isZero e.2) = true) ↔
       ∃ e ∈ entriesOf ov.entries [key], isZero e.2 = false := by
     rw [List.any_eq_true]
     constructor
     · rintro ⟨x, hx, hx'⟩; exact ⟨x, hx, by simpa using hx'⟩
     · rintro ⟨x, hx, hx'⟩; exact ⟨x, hx, by simp [hx']⟩
-  by_cases hs : sets ov key zeroOk
+  by_cases hs : sets ov key
   · have he : (entriesOf ov.entries [key]).isEmpty = false := by
       cases h : entriesOf ov.entries [key] with
-      | nil => exact absurd h hs.1
+      | nil => exact absurd h hs
       | cons _ _ => rfl
     have hz : (zeroOk || (entriesOf ov.entries [key]).any fun e => !isZero e.2) = true := by
-      rcases hs.2 with h1 | h1
+      rcases hx hs with h1 | h1
       · simp [h1]
       · simp [hany.mpr h1]
     simp [applyRule, observed, hs, he, hz]
-  · simp only [observed, hs, if_false]
-    by_cases he : (entriesOf ov.entries [key]).isEmpty = true
-    · simp [applyRule, he]
-    · have hne : entriesOf ov.entries [key] ≠ [] := by
-        intro h; rw [h] at he; exact he rfl
-      have hz : (zeroOk || (entriesOf ov.entries [key]).any fun e => !isZero e.2) = false := by
-        cases hb : (zeroOk || (entriesOf ov.entries [key]).any fun e => !isZero e.2) with
-        | false => rfl
-        | true =>
-          exfalso; apply hs; refine ⟨hne, ?_⟩
-          rcases (Bool.or_eq_true _ _).mp hb with h1 | h1
-          · exact Or.inl h1
-          · exact Or.inr (hany.mp h1)
-      simp [applyRule, he, hz]
+  · have he : (entriesOf ov.entries [key]).isEmpty = true := by
+      unfold sets at hs
+      simpa using hs
+    simp [applyRule, observed, hs, he]
+
+example : sets ⟨["forward_headers"], [(("forward_headers", ""), "[\"X-User\"]")], true⟩ ("forward_headers", "") ∧
+    Expressible ⟨["forward_headers"], [(("forward_headers", ""), "[\"X-User\"]")], true⟩ ("forward_headers", "") false :=
+  ⟨by decide +kernel, Or.inr ⟨(("forward_headers", ""), "[\"X-User\"]"), by decide +kernel, by decide +kernel⟩⟩
+
+/-- **known finding `C17-zero-override`** — outside that hypothesis the property fails: a rule that sets
+`forward_headers: []` for a contextualizer whose catalogue entry forwards `X-A` still forwards `X-A`
+(`forward_headers`, `forward_cookies`, `payload`, `claims`, `user_id`, `password`, `assertions.issuers | audience |
+allowed_algorithms | validity_leeway`, `expressions` and `forward_response_headers_to_upstream` of the remote
+authorizer, `header.scheme` of the client credentials finalizer behave alike) -/
+theorem c17_zero_override_is_not_observed :
+    (heimdall.replace "genericContextualizer" "fwdHeaders" [(("forward_headers", ""), "[\"X-A\"]")]
+      ⟨["forward_headers"], [(("forward_headers", ""), "[]")], true⟩).getD [(("forward_headers", ""), "[\"X-A\"]")] ≠
+    observed ("forward_headers", "") [(("forward_headers", ""), "[\"X-A\"]")]
+      ⟨["forward_headers"], [(("forward_headers", ""), "[]")], true⟩ := by decide +kernel
+
+/-- where the code can tell the rule's setting from "not set", the model's rule is the specification's rule: the
+bug-compatible table and the "own setting always wins" table agree on the field -/
+theorem c17_rule_is_spec_where_expressible (rule : Rule) (old : Entries) (ov : Override)
+    (h : ∀ key, rule = .over key false →
+      (entriesOf ov.entries [key]).isEmpty = true ∨ (entriesOf ov.entries [key]).any (fun e => !isZero e.2) = true) :
+    applyRule rule old ov = applyRule (specRule rule) old ov :=
+  applyRule_spec rule old ov h
 
 /-- a field that is never overridden shows the catalogue's value -/
 theorem c17_fixed_field_shows_catalogue (cat : Entries) (ov : Override) : (applyRule .keep cat ov).getD cat = cat := rfl
@@ -280,67 +330,116 @@ theorem c17_merged_field_is_entrywise_overlay (key : Key) (cat : Entries) (ov : 
   | nil => simp [lookupLast]
   | cons e es => simpa using lookupFirst_mergeEntries cat (e :: es) k
 
+/-- any catalogue, loaded by `load` (what the driver does), is the start of a run: closed, all prototypes -/
+theorem c17_loaded_catalogue_is_initial (cat : List (TypeD × String × Entries))
+    (threads : Nat → Thread Entries Override)
+    (hf : ∀ i, (threads i).seen = [] ∧ (threads i).ops = (threads i).prog ∧
+      ((threads i).phase = .run ∨ ∃ ov, (threads i).phase = .create ov)) :
+    Initial ⟨cat.foldl (fun σ c => load σ c.1 c.2.1 c.2.2) emptyStore, threads⟩ :=
+  ⟨(loadAll_closed cat emptyStore emptyStore_closed.1 emptyStore_closed.2).1,
+   (loadAll_closed cat emptyStore emptyStore_closed.1 emptyStore_closed.2).2, hf⟩
+
 /-- what the factory hands out for a catalogue entry is the prototype itself … -/
 theorem c17_factory_prototype_is_the_catalogue_entry (σ : Store Entries Override) (p h : Nat) (ov : Option Override)
     (hc : create σ (some p) ov = .proto h) : h = p := by
   unfold create at hc
-  cases ov with
-  | none => simp only at hc; cases hc; rfl
-  | some o =>
-    simp only at hc
-    split at hc
-    · cases hc
-    · split at hc
-      · cases hc; rfl
-      · split at hc
-        · cases hc; rfl
-        · cases hc
-      · split at hc
-        · cases hc; rfl
-        · split at hc
-          · cases hc
-          · split at hc <;> cases hc
-      · split at hc
-        · cases hc
-        · split at hc <;> cases hc
+  cases hd : decision σ (some p) ov with
+  | notFound => rw [hd] at hc; cases hc
+  | configError => rw [hd] at hc; cases hc
+  | build p' o => rw [hd] at hc; simp only at hc; split at hc <;> cases hc
+  | proto h' =>
+    rw [hd] at hc
+    cases hc
+    unfold decision at hd
+    cases ov with
+    | none => cases hd; rfl
+    | some o =>
+      simp only at hd
+      split at hd
+      · cases hd
+      · split at hd
+        · cases hd; rfl
+        · split at hd
+          · cases hd; rfl
+          · cases hd
+        · split at hd
+          · cases hd; rfl
+          · split at hd <;> cases hd
+        · split at hd <;> cases hd
 
 /-- … or the result of `withConfig` on the heimdall table (a run of the machine by
-`c17_uninterrupted_withConfig_is_a_run`), nothing else -/
+`c17_uninterrupted_withConfig_is_a_run`), for an accepted, non-empty `config` -/
 theorem c17_factory_variant_is_withConfig (σ σ' : Store Entries Override) (p h : Nat) (ov : Option Override)
-    (hc : create σ (some p) ov = .variant σ' h) : ∃ o, ov = some o ∧ withConfig heimdall σ p o = some (σ', h) := by
+    (hc : create σ (some p) ov = .variant σ' h) :
+    ∃ p' o, decision σ (some p) ov = .build p' o ∧ withConfig heimdall σ p' o = some (σ', h) := by
   unfold create at hc
-  cases ov with
-  | none => simp only at hc; cases hc
-  | some o =>
-    refine ⟨o, rfl, ?_⟩
+  cases hd : decision σ (some p) ov with
+  | notFound => rw [hd] at hc; cases hc
+  | configError => rw [hd] at hc; cases hc
+  | proto h' => rw [hd] at hc; cases hc
+  | build p' o =>
+    rw [hd] at hc
     simp only at hc
+    refine ⟨p', o, rfl, ?_⟩
     split at hc
+    · rename_i hw; cases hc; exact hw
     · cases hc
-    · split at hc
-      · cases hc
-      · split at hc <;> cases hc
-      · split at hc
-        · cases hc
-        · split at hc
-          · cases hc
-          · split at hc
-            · rename_i hw; cases hc; exact hw
-            · cases hc
-      · split at hc
-        · cases hc
-        · split at hc
-          · rename_i hw; cases hc; exact hw
-          · cases hc
+
+/-- a `config` whose values the decoder or validator rejects never creates anything -/
+theorem c17_rejected_values_create_nothing (σ : Store Entries Override) (p : Option Nat) (ov : Override)
+    (hv : ov.valuesOk = false) : ∀ σ' h, create σ p (some ov) ≠ .variant σ' h := by
+  intro σ' h hc
+  unfold create at hc
+  cases hd : decision σ p (some ov) with
+  | notFound => rw [hd] at hc; cases hc
+  | configError => rw [hd] at hc; cases hc
+  | proto h' => rw [hd] at hc; cases hc
+  | build p' o =>
+    unfold decision at hd
+    cases p with
+    | none => cases hd
+    | some p =>
+      simp only at hd
+      split at hd
+      · cases hd
+      · split at hd
+        · cases hd
+        · split at hd <;> cases hd
+        · split at hd
+          · cases hd
+          · split at hd
+            · cases hd
+            · rename_i hval
+              simp [Override.valid, hv] at hval
+        · split at hd
+          · cases hd
+          · rename_i hval
+            simp [Override.valid, hv] at hval
+
+/-- **creation end to end** (what the driver's `create` computes and sends to the implementation side as the
+effective configuration): on a closed store the new object stands for the prototype's view overlaid with the
+rule's `config` by the heimdall table, and every object that existed before stands for what it stood for -/
+theorem c17_create_end_to_end (σ σ' : Store Entries Override) (p h : Nat) (ov : Option Override) (hcl : Closed σ)
+    (hc : create σ (some p) ov = .variant σ' h) :
+    ∃ p' o inst, decision σ (some p) ov = .build p' o ∧ σ.insts[p']? = some inst ∧
+      effective σ' h = effOfView (overlayView heimdall inst.typ o (viewOf σ.cells inst.slots)) ∧
+      (∀ k i, σ.insts[k]? = some i → effective σ' k = effective σ k) ∧ Closed σ' := by
+  rcases c17_factory_variant_is_withConfig σ σ' p h ov hc with ⟨p', o, hd, hw⟩
+  rcases withConfig_view heimdall σ σ' p' h o hcl hw with ⟨inst, hi, _, hv, hold, hcl'⟩
+  refine ⟨p', o, inst, hd, hi, by simp [effective, hv], ?_, hcl'⟩
+  intro k i hk
+  simp [effective, hold k i hk]
 
 /-- witnesses of the two ways the code tells "set" from "not set": `cache_ttl: 0s` on the rule level is observed
-(the fields are decoded into pointers: the remote authorizer since the fix `honor cache_ttl: 0s …`), an empty
-`forward_headers` list is not (length check) -/
+(the fields are decoded into pointers), an empty `payload` template is not (nil check) -/
 theorem c17_zero_values_on_the_rule_level :
     heimdall.replace "remoteAuthorizer" "ttl" [(("cache_ttl", ""), "\"5s\"")]
-      ⟨["cache_ttl"], [(("cache_ttl", ""), "\"0s\"")]⟩ = some [(("cache_ttl", ""), "\"0s\"")] ∧
+      ⟨["cache_ttl"], [(("cache_ttl", ""), "\"0s\"")], true⟩ = some [(("cache_ttl", ""), "\"0s\"")] ∧
     heimdall.replace "genericContextualizer" "ttl" [(("cache_ttl", ""), "\"5s\"")]
-      ⟨["cache_ttl"], [(("cache_ttl", ""), "\"0s\"")]⟩ = some [(("cache_ttl", ""), "\"0s\"")] ∧
-    heimdall.replace "genericContextualizer" "fwdHeaders" [(("forward_headers", ""), "[\"X-A\"]")]
-      ⟨["forward_headers"], [(("forward_headers", ""), "[]")]⟩ = none := by decide +kernel
+      ⟨["cache_ttl"], [(("cache_ttl", ""), "\"0s\"")], true⟩ = some [(("cache_ttl", ""), "\"0s\"")] ∧
+    heimdall.replace "genericContextualizer" "payload" [(("payload", ""), "\"x\"")]
+      ⟨["payload"], [(("payload", ""), "\"\"")], true⟩ = none ∧
+    heimdallSpec.replace "genericContextualizer" "payload" [(("payload", ""), "\"x\"")]
+      ⟨["payload"], [(("payload", ""), "\"\"")], true⟩ = some [(("payload", ""), "\"\"")] := by decide +kernel
 
 end Heimdall.Props.C17
